@@ -144,6 +144,9 @@ def run(tier):
         ok, res = common.validate_trace("Trace_Reader", "Trace_Reader.cfg", p)
         if ok:
             raise Broken("negative control: a silent corruption trace was accepted by Trace_Reader")
+    # every history of reads, validations, chunk requests and clear_error on one context (MC_Session): the reads judged
+    from .. import session
+    session.run_session(ck, "C02", "read", tier, wd, rnd)
     ck.extra["rule"] = "one case = one mutant (raw, body-targeted or structure-aware re-sealed) of a valid file read to the end with one buffer-size sequence, or one unzck run"
     ck.assumptions = ["reference decoder (verif/ref.py + libzstd + hashlib) defines validity and content", "digests are treated as collision free"]
     shutil.rmtree(wd, ignore_errors=True)
